@@ -123,7 +123,7 @@ def matrix_one(n, ids):
     work = '/tmp/seedrepo-%s' % n
     shutil.rmtree(work, ignore_errors=True)
     os.makedirs(work)
-    sh('git -C /repo archive HEAD | tar -x -C %s' % work)
+    sh('git -C /repo archive %s | tar -x -C %s' % (REPOHEAD[0] or 'HEAD', work))
     sh('cp /repo/config.h /repo/config.mk %s/' % work)
     rc, out = sh('git apply --unsafe-paths --directory=%s %s/patch.diff' % (work, d), cwd='/')
     if rc:
@@ -142,12 +142,13 @@ def matrix_one(n, ids):
     caught = [p for p, v in res.items() if v['exit'] == 1]
     broken = [p for p, v in res.items() if v['exit'] == 2]
     json.dump({'checks_run': ids, 'caught_by': caught, 'analysis_broken': broken, 'detail': res,
-               'ran_on': 'scratch copy of /repo HEAD %s with patch.diff applied (VERIF_REPO), removed afterwards' % sh('git -C /repo rev-parse --short HEAD')[1].strip(),
+               'ran_on': 'scratch copy of /repo commit %s with patch.diff applied (VERIF_REPO), removed afterwards' % (REPOHEAD[0] or sh('git -C /repo rev-parse HEAD')[1].strip())[:7],
                'when': time.strftime('%Y-%m-%d %H:%M')}, open(os.path.join(d, 'result.json'), 'w'), indent=1)
     return n, (caught, broken)
 
 
 SNAP = [None]
+REPOHEAD = [None]
 
 
 def cmd_matrix(par=4, only=None):
@@ -160,6 +161,7 @@ def cmd_matrix(par=4, only=None):
         if os.path.isdir(src): shutil.copytree(src, os.path.join(snap, item), ignore=shutil.ignore_patterns('__pycache__'))
         elif os.path.exists(src): shutil.copy2(src, os.path.join(snap, item))
     SNAP[0] = snap
+    REPOHEAD[0] = sh('git -C /repo rev-parse HEAD')[1].strip()
     try:
         return _matrix(par, only)
     finally:
